@@ -1,5 +1,7 @@
 import J5V.Codec.SpellingProofs
 import J5V.Codec.FaultProofs
+import J5V.Codec.FaultDocProofs
+import J5V.Codec.SpellProofs
 import J5V.Generated.CodecFacts
 /-!
 # C03 — decoding is exact or rejected
@@ -189,7 +191,254 @@ theorem C03_fault_scalar_positions (c : Cfg) (k : ScalarKind) (t : PTree) (tok :
    fun rest acc => array_propagates_scalar c k t tok rest acc hg h,
    fun key kr rest acc => map_propagates_scalar c k key kr t tok rest acc hg h⟩
 
+/-! ## document level: every admissible spelling decodes to the same message -/
+
+/-- **C03_variations**: for every `Env.flat` environment (flattened objects, exposed oneofs, proto
+oneofs, wrapper oneofs, enums, arrays / maps; no `Any`) and every representable message `m`: every
+document that *spells* `m` (`SpellsRoot`, `Codec/Doc.lean`, defined by recursion on the document)
+— object members in **any order**, **explicit nulls** anywhere, `"!type"` before / after / without
+the oneof member, array elements and map values in order, every scalar written in **any** form
+`scalarReflectFromGo` maps to the stored value (the documented alternates: `C03_scalar_alternates`
+below), enum names with or without prefix — decodes to exactly `m`. The canonical encoding is one
+of these documents, so they all produce the same message as the canonical spelling. -/
+theorem C03_variations (c : Cfg) (hs : c.env.flat = true) (root : String) (m : Fields) (t : PTree)
+    (hok : valOk c.env c.O (.object root) (.msg m) = true ∨
+      valOk c.env c.O (.oneof root) (.msg m) = true)
+    (h : SpellsRoot c root m t) : decRootTree c root t = .ok m :=
+  spells_root_decodes c hs root m t hok h
+
+/-- the same for `Codec.JSONToProto` on bytes (insignificant whitespace is consumed by the JSON
+reader model `readDoc`) -/
+theorem C03_variations_bytes (c : Cfg) (hs : c.env.flat = true) (root : String) (m : Fields)
+    (bs : Bytes)
+    (hok : valOk c.env c.O (.object root) (.msg m) = true ∨
+      valOk c.env c.O (.oneof root) (.msg m) = true)
+    (h : SpellsRoot c root m (readDoc bs)) : decodeBytes c root bs = .ok m :=
+  spells_root_decodes c hs root m (readDoc bs) hok h
+
+/-- the documented alternate spellings of a scalar all *spell* the value (`scalarSpells` is the
+leaf case of `SpellsRoot`): quoted or bare 32- and 64-bit integers over their whole range;
+standard, URL-safe and unpadded base64; floats and decimals quoted or bare, in any text
+`ParseFloat` / `decimal.NewFromString` maps to the value; timestamps in any RFC 3339 text
+`time.Parse` maps to the instant (any offset); any string literal denoting the string -/
+theorem C03_scalar_alternates (O : Oracle) (raw : Bytes) :
+    (∀ i : Int, -(2 ^ 31 : Int) ≤ i → i < 2 ^ 31 →
+      scalarSpells O .int32 (.int i) (.str (fmtInt i) raw) ∧ scalarSpells O .int32 (.int i) (.num (fmtInt i))) ∧
+    (∀ i : Int, -(2 ^ 63 : Int) ≤ i → i < 2 ^ 63 →
+      scalarSpells O .int64 (.int i) (.str (fmtInt i) raw) ∧ scalarSpells O .int64 (.int i) (.num (fmtInt i))) ∧
+    (∀ n : Nat, n < 2 ^ 32 →
+      scalarSpells O .uint32 (.uint n) (.str (fmtNat n) raw) ∧ scalarSpells O .uint32 (.uint n) (.num (fmtNat n))) ∧
+    (∀ n : Nat, n < 2 ^ 64 →
+      scalarSpells O .uint64 (.uint n) (.str (fmtNat n) raw) ∧ scalarSpells O .uint64 (.uint n) (.num (fmtNat n))) ∧
+    (∀ bs : Bytes, scalarSpells O .bytes (.bytes bs) (.str (b64Encode bs) raw) ∧
+      scalarSpells O .bytes (.bytes bs) (.str ((b64Encode bs).map stdToUrl) raw) ∧
+      scalarSpells O .bytes (.bytes bs) (.str (stripPad (b64Encode bs)) raw)) ∧
+    (∀ x b b32, O.parseFloat x = some (b, b32) →
+      scalarSpells O .float64 (.f64 b) (.str x raw) ∧ scalarSpells O .float64 (.f64 b) (.num x)) ∧
+    (∀ x b b32, O.parseFloat x = some (b, some b32) →
+      scalarSpells O .float32 (.f32 b32) (.str x raw) ∧ scalarSpells O .float32 (.f32 b32) (.num x)) ∧
+    (∀ x norm, O.parseDec x = some norm →
+      scalarSpells O .decimal (.dec norm) (.str x raw) ∧ scalarSpells O .decimal (.dec norm) (.num x)) ∧
+    (∀ x s n, O.parseTime x = some (s, n) → scalarSpells O .timestamp (.ts s n) (.str x raw)) ∧
+    (∀ s : Bytes, scalarSpells O .string (.str s) (.str s raw)) := by
+  refine ⟨?_, ?_, ?_, ?_, ?_, ?_, ?_, ?_, ?_, ?_⟩
+  · intro i h1 h2
+    obtain ⟨a, b⟩ := C03_int32_quoted_or_bare O i h1 h2
+    exact ⟨⟨by simp, _, rfl, a⟩, ⟨by simp, _, rfl, b⟩⟩
+  · intro i h1 h2
+    obtain ⟨a, b⟩ := C03_int64_quoted_or_bare O i h1 h2
+    exact ⟨⟨by simp, _, rfl, a⟩, ⟨by simp, _, rfl, b⟩⟩
+  · intro n h
+    obtain ⟨a, b⟩ := C03_uint32_quoted_or_bare O n h
+    exact ⟨⟨by simp, _, rfl, a⟩, ⟨by simp, _, rfl, b⟩⟩
+  · intro n h
+    obtain ⟨a, b⟩ := C03_uint64_quoted_or_bare O n h
+    exact ⟨⟨by simp, _, rfl, a⟩, ⟨by simp, _, rfl, b⟩⟩
+  · intro bs
+    obtain ⟨a, b, d⟩ := C03_base64_spellings O bs
+    exact ⟨⟨by simp, _, rfl, a⟩, ⟨by simp, _, rfl, b⟩, ⟨by simp, _, rfl, d⟩⟩
+  · intro x b b32 h
+    exact ⟨⟨by simp, _, rfl, by simp [decodeScalar, h]⟩, ⟨by simp, _, rfl, by simp [decodeScalar, h]⟩⟩
+  · intro x b b32 h
+    exact ⟨⟨by simp, _, rfl, by simp [decodeScalar, h]⟩, ⟨by simp, _, rfl, by simp [decodeScalar, h]⟩⟩
+  · intro x norm h
+    exact ⟨⟨by simp, _, rfl, by simp [decodeScalar, h]⟩, ⟨by simp, _, rfl, by simp [decodeScalar, h]⟩⟩
+  · intro x s n h
+    exact ⟨by simp, _, rfl, by simp [decodeScalar, h]⟩
+  · intro s
+    exact ⟨by simp, _, rfl, rfl⟩
+
+/-! ## document level: a fault anywhere is rejected -/
+
+/-- **C03_faults**: a document that contains — at the top level or at *any* nesting position
+(member of a nested object, array element, map value, oneof arm), whatever surrounds it — a member
+that cannot be represented in its target field is **rejected with an error**: never accepted,
+never partially accepted, no panic. `FaultRoot` (`Codec/Doc.lean`) is defined by recursion on the
+document only and lists the classes: wrong JSON type; a scalar token `scalarReflectFromGo` rejects
+(unparsable / out-of-range number, invalid base64 / date / decimal / timestamp: the scalar-level
+theorems above); unknown enum name; unknown key; more than one key in a oneof; a `"!type"` that
+contradicts the key present or names no member; a `null` array element or map value; a duplicate
+key; a truncated container. For every environment whose array / map items are not arrays / maps
+(`Env.itemsOk`, needed only to exclude the `newFieldFactory` panic), every root, every oracle. -/
+theorem C03_faults (c : Cfg) (hc : c.env.itemsOk = true) (root : String) (t : PTree)
+    (h : FaultRoot c root t) : ∃ e, decRootTree c root t = .err e :=
+  fault_rejected c hc root t h
+
+/-- the same for `Codec.JSONToProto` on bytes: if the tree the JSON reader delivers contains a
+fault, the call returns an error -/
+theorem C03_faults_bytes (c : Cfg) (hc : c.env.itemsOk = true) (root : String) (bs : Bytes)
+    (h : FaultRoot c root (readDoc bs)) : ∃ e, decodeBytes c root bs = .err e :=
+  fault_rejected c hc root (readDoc bs) h
+
+/-- a fault inside a property value is a fault of the object, at any member position (the
+constructor-like facts that make `FaultRoot` a relation "one fault at any position") -/
+theorem C03_fault_positions (c : Cfg) (props : List PropDef) (k kr : Bytes) (v : PTree)
+    (rest : PMembers) :
+    (findProp props k = none → FaultM c props (.cons k kr v rest)) ∧
+    (∀ p, findProp props k = some p → FaultV c p.field v → FaultM c props (.cons k kr v rest)) ∧
+    (FaultM c props rest → FaultM c props (.cons k kr v rest)) ∧
+    (∀ item x xs, FaultV c item x → FaultE c item (.cons x xs)) ∧
+    (∀ item x xs, FaultE c item xs → FaultE c item (.cons x xs)) ∧
+    (∀ item x xs, FaultV c item x → FaultMap c item (.cons k kr x xs)) ∧
+    (∀ item x xs, FaultMap c item xs → FaultMap c item (.cons k kr x xs)) := by
+  refine ⟨?_, ?_, ?_, ?_, ?_, ?_, ?_⟩
+  · intro h; simp only [FaultM]; exact Or.inl h
+  · intro p hp hv; simp only [FaultM]; exact Or.inr (Or.inl ⟨p, hp, hv⟩)
+  · intro h; simp only [FaultM]; exact Or.inr (Or.inr (Or.inr h))
+  · intro item x xs h; simp only [FaultE]; exact Or.inr (Or.inl h)
+  · intro item x xs h; simp only [FaultE]; exact Or.inr (Or.inr h)
+  · intro item x xs h; simp only [FaultMap]; exact Or.inr (Or.inl h)
+  · intro item x xs h; simp only [FaultMap]; exact Or.inr (Or.inr h)
+
 /-! ## Non-vacuity -/
+
+/-- a small schema for the fault examples -/
+def wOps : List PropDef :=
+  [{ jsonName := ascii "a", path := [1], pres := .opt, field := .scalar .string, group := some 0 },
+   { jsonName := ascii "b", path := [2], pres := .opt, field := .scalar .int32, group := some 0 }]
+
+def mProps : List PropDef :=
+  [{ jsonName := ascii "name", path := [1], pres := .imp, field := .scalar .string },
+   { jsonName := ascii "w", path := [3], pres := .msg, field := .oneof "t.W" },
+   { jsonName := ascii "arr", path := [4], pres := .list, field := .array (.scalar .int32) },
+   { jsonName := ascii "sub", path := [5], pres := .msg, field := .object "t.M" }]
+
+def faultEnv : Env := { defs := [("t.W", .oneof wOps), ("t.M", .object mProps)] }
+
+def faultCfg : Cfg := { env := faultEnv, O := toyOracle }
+
+example : faultEnv.itemsOk = true := by decide
+
+theorem faultEnv_M : faultCfg.env.find "t.M" = some (.object mProps) := by decide
+theorem faultEnv_W : faultCfg.env.find "t.W" = some (.oneof wOps) := by decide
+
+/-- a reordered document with an explicit null, a quoted 32-bit integer and a oneof without
+`"!type"`: `{"w":{"b":"7"},"sub":null,"arr":["1",2],"name":"x"}` spells the message
+`{name: "x", w: {b: 7}, arr: [1, 2]}` -/
+example : SpellsRoot faultCfg "t.M"
+    [(1, .str (ascii "x")), (3, .msg [(2, .int 7)]), (4, .list [.int 1, .int 2])]
+    (.obj (.cons (ascii "w") [] (.obj (.cons (ascii "b") [] (.str (ascii "7") []) (.nil .closed)))
+      (.cons (ascii "sub") [] .null
+        (.cons (ascii "arr") [] (.arr (.cons (.str (ascii "1") []) (.cons (.num (ascii "2")) (.nil .closed))))
+          (.cons (ascii "name") [] (.str (ascii "x") []) (.nil .closed)))))) := by
+  unfold SpellsRoot; rw [faultEnv_M]; simp only []
+  -- "w"
+  rw [SpellsM]
+  refine ⟨mProps[1], by decide, Or.inr (Or.inl ⟨by simp, by decide, ⟨.msg [(2, .int 7)], rfl, ?_⟩, ?_⟩)⟩
+  · show SpellsV faultCfg (.oneof "t.W") _ _
+    rw [SpellsV, faultEnv_W]; simp only []
+    rw [SpellsO]
+    refine ⟨rfl, by decide, wOps[1], 2, .int 7, by decide, rfl, rfl, ?_, ?_⟩
+    · intro q' hq' hne
+      simp only [wOps, List.mem_cons, List.mem_singleton, List.not_mem_nil, or_false] at hq'
+      rcases hq' with rfl | rfl
+      · decide
+      · exact absurd rfl hne
+    · show SpellsV faultCfg (.scalar .int32) _ _
+      rw [SpellsV]
+      · exact ⟨by simp, _, rfl, rfl⟩
+      all_goals (intros; simp_all)
+  -- "sub": null
+  rw [SpellsM]
+  refine ⟨mProps[3], by decide, Or.inl ⟨rfl, ?_⟩⟩
+  -- "arr"
+  rw [SpellsM]
+  refine ⟨mProps[2], by decide, Or.inr (Or.inl ⟨by decide, by decide, ⟨.list [.int 1, .int 2], rfl, ?_⟩, ?_⟩)⟩
+  · show SpellsV faultCfg (.array (.scalar .int32)) _ _
+    rw [SpellsV]
+    rw [SpellsE]
+    refine ⟨_, _, rfl, ?_, ?_⟩
+    · rw [SpellsV]
+      · exact ⟨by simp, _, rfl, rfl⟩
+      all_goals (intros; simp_all)
+    rw [SpellsE]
+    refine ⟨_, _, rfl, ?_, ?_⟩
+    · rw [SpellsV]
+      · exact ⟨by simp, _, rfl, rfl⟩
+      all_goals (intros; simp_all)
+    rw [SpellsE]; exact ⟨rfl, rfl⟩
+  -- "name"
+  rw [SpellsM]
+  refine ⟨mProps[0], by decide, Or.inr (Or.inl ⟨by decide, by decide, ⟨.str (ascii "x"), rfl, ?_⟩, ?_⟩)⟩
+  · show SpellsV faultCfg (.scalar .string) _ _
+    rw [SpellsV]
+    · exact ⟨by simp, _, rfl, rfl⟩
+    all_goals (intros; simp_all)
+  -- end: every property not given is unset
+  rw [SpellsM]
+  refine ⟨rfl, ?_⟩
+  intro p hp hn
+  simp only [mProps, List.mem_cons, List.mem_singleton, List.not_mem_nil, or_false] at hp
+  rcases hp with rfl | rfl | rfl | rfl
+  · exact absurd (by decide) hn
+  · exact absurd (by decide) hn
+  · exact absurd (by decide) hn
+  · exact ⟨fun _ => by decide, fun h => by simp at h⟩
+
+example : faultEnv.flat = true := by decide
+example : valOk faultEnv toyOracle (.object "t.M")
+    (.msg [(1, .str (ascii "x")), (3, .msg [(2, .int 7)]), (4, .list [.int 1, .int 2])]) = true := by decide
+
+/-- unknown key, nested: `{"sub":{"zz":1}}` -/
+example : FaultRoot faultCfg "t.M"
+    (.obj (.cons (ascii "sub") [] (.obj (.cons (ascii "zz") [] (.num (ascii "1")) (.nil .closed))) (.nil .closed))) := by
+  unfold FaultRoot; rw [faultEnv_M]; simp only []
+  rw [FaultM]
+  refine Or.inr (Or.inl ⟨mProps[3], by decide, ?_⟩)
+  show FaultV faultCfg (.object "t.M") _
+  rw [FaultV, faultEnv_M]; simp only []
+  rw [FaultM]
+  exact Or.inl (by decide)
+
+/-- unparsable number in an array element: `{"arr":[1,"x"]}` -/
+example : FaultRoot faultCfg "t.M"
+    (.obj (.cons (ascii "arr") [] (.arr (.cons (.num (ascii "1")) (.cons (.str (ascii "x") []) (.nil .closed))))
+      (.nil .closed))) := by
+  unfold FaultRoot; rw [faultEnv_M]; simp only []
+  rw [FaultM]
+  refine Or.inr (Or.inl ⟨mProps[2], by decide, ?_⟩)
+  show FaultV faultCfg (.array (.scalar .int32)) _
+  rw [FaultV]
+  rw [FaultE]; right; right
+  rw [FaultE]; right; left
+  rw [FaultV]
+  · simp only [goTok]
+    exact ⟨_, rfl⟩
+  all_goals (intros; simp_all)
+
+/-- two keys in a oneof arm: `{"w":{"a":"x","b":1}}` -/
+example : FaultRoot faultCfg "t.M"
+    (.obj (.cons (ascii "w") [] (.obj (.cons (ascii "a") [] (.str (ascii "x") [])
+      (.cons (ascii "b") [] (.num (ascii "1")) (.nil .closed)))) (.nil .closed))) := by
+  unfold FaultRoot; rw [faultEnv_M]; simp only []
+  rw [FaultM]
+  refine Or.inr (Or.inl ⟨mProps[1], by decide, ?_⟩)
+  show FaultV faultCfg (.oneof "t.W") _
+  rw [FaultV, faultEnv_W]; simp only []
+  right
+  have hk : oneofKeys (.cons (ascii "a") [] (.str (ascii "x") [])
+      (.cons (ascii "b") [] (.num (ascii "1")) (.nil .closed))) = [ascii "a", ascii "b"] := by decide
+  unfold FaultOneofPost; rw [hk]; trivial
 
 example : parseInt (ascii "abc") 32 = none := by decide
 example : parseInt (ascii "2147483648") 32 = none := by decide
